@@ -294,6 +294,7 @@ def _selection(ctx, P):
             ctx.unknown("R10.2", name, str(e))
             continue
         bad = None
+        unreadable = None
         for o in outs:
             if want == "raise":
                 if o.kind != "raise":
@@ -313,6 +314,9 @@ def _selection(ctx, P):
             else:
                 f = factors(v)
                 ok = f == sorted(want)
+            if not ok and want != ["INTERP"] and factors(v) is None:
+                unreadable = f"the returned value {v!r} is not a product of registered variables this rule can read"
+                continue
             if not ok:
                 bad = f"selects {factors(v) or v!r}; expected {want} ({name})"
                 continue
@@ -328,6 +332,8 @@ def _selection(ctx, P):
                     bad = bad or "metrics are not interpolated to the position of the array"
         if bad:
             ctx.report("R10.2", fi, name, bad)
+        elif unreadable:
+            ctx.unknown("R10.2", name, unreadable)
         else:
             ctx.ok("R10.2", name, f"-> {want}")
 
